@@ -10,17 +10,19 @@
 EXTENDS Integers, Sequences
 
 VARIABLES zeros,  \* zero value text of each declared field, in declaration order
+          ftypes, \* declared type of each field ("" where the trace does not observe it): what a field holds has this type
+                  \* whatever was stored (an untyped constant adopts it)
           inst,   \* sequence of instances: inst[i][f] = current text of field f
           vars    \* vars[v] = index of the instance variable v refers to
-ssVars == <<zeros, inst, vars>>
+ssVars == <<zeros, ftypes, inst, vars>>
 
-SInit == zeros = <<>> /\ inst = <<>> /\ vars = <<>>
-SReset(z) == zeros' = z /\ inst' = <<>> /\ vars' = <<>>
+SInit == zeros = <<>> /\ ftypes = <<>> /\ inst = <<>> /\ vars = <<>>
+SReset(z, t) == zeros' = z /\ ftypes' = t /\ inst' = <<>> /\ vars' = <<>>
 SNew == /\ inst' = Append(inst, zeros)
         /\ vars' = Append(vars, Len(inst) + 1)
-        /\ UNCHANGED zeros
-SAlias(of) == vars' = Append(vars, vars[of]) /\ UNCHANGED <<zeros, inst>>
-SWrite(v, f, val) == inst' = [inst EXCEPT ![vars[v]][f] = val] /\ UNCHANGED <<zeros, vars>>
+        /\ UNCHANGED <<zeros, ftypes>>
+SAlias(of) == vars' = Append(vars, vars[of]) /\ UNCHANGED <<zeros, ftypes, inst>>
+SWrite(v, f, val) == inst' = [inst EXCEPT ![vars[v]][f] = val] /\ UNCHANGED <<zeros, ftypes, vars>>
 SReadVal(v, f) == inst[vars[v]][f]
 SRead == UNCHANGED ssVars
 =============================================================================
